@@ -30,6 +30,7 @@
 #include "draco/animation/keyframe_animation_decoder.h"
 #include "draco/compression/bit_coders/rans_bit_encoder.h"
 #include "draco/compression/entropy/symbol_encoding.h"
+#include "draco/compression/point_cloud/algorithms/dynamic_integer_points_kd_tree_encoder.h"
 #include "draco/core/varint_encoding.h"
 #include "draco/core/verif_hooks.h"
 using namespace draco;
@@ -96,11 +97,12 @@ static std::vector<char> apply(const std::vector<char> &b, const Fault &f, const
     case 1: if (f.off < (long)c.size()) c[f.off] = (char)f.a; break;
     case 2: for (int k = 0; k < 4 && f.off + k < (long)c.size(); ++k) c[f.off + k] = (char)((f.a >> (8 * k)) & 0xFF); break;
     case 3: {
-      // 0: 2^32-1   1, 2: unterminated   3: 2^31   4: 16383   5: 2^64-1 (10 bytes)   6: 2^63   7: 2^64 - 2^46 (64-bit sizes: bit 63 set, low bits clear)
+      // 0: 2^32-1   1, 2: unterminated   3: 2^31   4: 16383   5: 2^64-1 (10 bytes)   6: 2^63   7: 2^64 - 2^46 (64-bit sizes: bit 63 set, low bits clear)   8, 9: below
       static const unsigned char pats[][10] = {{0xFF, 0xFF, 0xFF, 0xFF, 0x0F}, {0x80, 0x80, 0x80, 0x80, 0x80, 0x80}, {0xFF, 0xFF, 0xFF, 0xFF, 0xFF, 0xFF}, {0x80, 0x80, 0x80, 0x80, 0x08}, {0xFF, 0x7F},
                                                {0xFF, 0xFF, 0xFF, 0xFF, 0xFF, 0xFF, 0xFF, 0xFF, 0xFF, 0x01}, {0x80, 0x80, 0x80, 0x80, 0x80, 0x80, 0x80, 0x80, 0x80, 0x01},
-                                               {0x80, 0x80, 0x80, 0x80, 0x80, 0x80, 0xC0, 0xFF, 0xFF, 0x01}};
-      static const int lens[] = {5, 6, 6, 5, 2, 10, 10, 10};
+                                               {0x80, 0x80, 0x80, 0x80, 0x80, 0x80, 0xC0, 0xFF, 0xFF, 0x01},
+                                               {0xD6, 0xAA, 0xD5, 0xAA, 0x05}, {0xAC, 0xD5, 0xAA, 0xD5, 0x0A}};     // 8, 9: 0x55555556, 0xAAAAAAAC (3 * n wraps in 32 bits)
+      static const int lens[] = {5, 6, 6, 5, 2, 10, 10, 10, 5, 5};
       for (int k = 0; k < lens[f.a] && f.off + k < (long)c.size(); ++k) c[f.off + k] = (char)pats[f.a][k];
       break;
     }
@@ -127,10 +129,10 @@ static std::vector<Fault> enumerate(const std::vector<char> &b, int level, uint6
     const unsigned char v = (unsigned char)b[o];
     for (int val : {0x00, 0xFF, (v + 1) & 0xFF, (v - 1) & 0xFF, v ^ 0x80, v ^ 0x01}) if (val != v) fs.push_back({1, o, val, 0});
     if (level >= 1 || o % 2 == 0) for (long long w : {0ll, 0x7FFFFFFFll, 0xFFFFFFFFll, 0x80000000ll}) fs.push_back({2, o, w, 0});
-    for (int p = 0; p < 8; ++p) if (level >= 1 || (o + p) % 3 == 0 || (p >= 5 && o < 64)) fs.push_back({3, o, p, 0});
+    for (int p = 0; p < 10; ++p) if (level >= 1 || (o + p) % 3 == 0 || (p >= 5 && o < 64)) fs.push_back({3, o, p, 0});
   }
   // the first 40 bytes hold the header, the counts and the first tables: always at step 1
-  if (step > 1) for (long o = 0; o < std::min<long>(L, 40); ++o) { for (int val : {0x00, 0xFF, 0x7F, 0x80}) fs.push_back({1, o, val, 0}); for (int p : {0, 5, 6, 7}) fs.push_back({3, o, p, 0}); fs.push_back({2, o, 0xFFFFFFFFll, 0}); }
+  if (step > 1) for (long o = 0; o < std::min<long>(L, 40); ++o) { for (int val : {0x00, 0xFF, 0x7F, 0x80}) fs.push_back({1, o, val, 0}); for (int p : {0, 5, 6, 7, 8, 9}) fs.push_back({3, o, p, 0}); fs.push_back({2, o, 0xFFFFFFFFll, 0}); }
   for (int maj = 0; maj <= 3; ++maj) for (int mn = 0; mn <= 5; ++mn) fs.push_back({4, 0, maj, mn});
   for (long o = 7; o <= 10 && o < L; ++o) for (int val = 0; val < 6; ++val) fs.push_back({5, o, val, 0});
   const int nmulti = level >= 2 ? 400 : (level == 1 ? 60 : 12);
@@ -314,7 +316,8 @@ static std::vector<char> assemble_seq(const vrt::J &row, int natt) {
   b.Encode("DRACO", 5);
   b.Encode((uint8_t)2); b.Encode((uint8_t)2); b.Encode((uint8_t)1); b.Encode((uint8_t)0); b.Encode((uint16_t)0);
   const long nf = (long)row["nf"].n, np = (long)row["npd"].n, method = (long)row["method"].n;
-  EncodeVarint<uint32_t>((uint32_t)nf, &b);
+  const std::string &nfd = row["nfd"].s;
+  EncodeVarint<uint32_t>(nfd == "w1" ? 0x55555556u : nfd == "w2" ? 0xAAAAAAACu : nfd == "max" ? 0xFFFFFFFFu : (uint32_t)nf, &b);
   EncodeVarint<uint32_t>((uint32_t)np, &b);
   b.Encode((uint8_t)method);
   std::vector<uint32_t> vals;
@@ -334,8 +337,43 @@ static std::vector<char> assemble_seq(const vrt::J &row, int natt) {
   return std::vector<char>(b.data(), b.data() + b.size());
 }
 
+// Legacy kd-tree point clouds (row.mode = "lkd", module LegacyKd): "DRACO" 2 2 | type 0 | method 1 | flags 0 | i32 hp | u8 1 decoder | varint 1 attribute |
+//   POSITION, uint32, 3 components, not normalized, varint id 0 | u8 1 (integer kd-tree) | u8 level | u32 op | payload of the real kd-tree encoder core
+//   over n points (u32 bit length, u32 count = ip, four bit streams).
+template <int L>
+static void kd_payload(const std::vector<std::array<uint32_t, 3>> &pts, EncoderBuffer *b) {
+  std::vector<std::array<uint32_t, 3>> p = pts;
+  DynamicIntegerPointsKdTreeEncoder<L> enc(3);
+  enc.EncodePoints(p.begin(), p.end(), 10, b);
+}
+static std::vector<char> assemble_lkd(const vrt::J &row) {
+  EncoderBuffer b;
+  b.Encode("DRACO", 5);
+  b.Encode((uint8_t)2); b.Encode((uint8_t)2); b.Encode((uint8_t)0); b.Encode((uint8_t)1); b.Encode((uint16_t)0);
+  const long n = (long)row["n"].n, hp = (long)row["hp"].n, op = (long)row["op"].n, ip = (long)row["ip"].n, level = (long)row["level"].n;
+  b.Encode((int32_t)hp);
+  b.Encode((uint8_t)1);
+  EncodeVarint<uint32_t>(1, &b);
+  b.Encode((uint8_t)0); b.Encode((uint8_t)6); b.Encode((uint8_t)3); b.Encode((uint8_t)0); EncodeVarint<uint32_t>(0, &b);
+  b.Encode((uint8_t)1);
+  b.Encode((uint8_t)level);
+  b.Encode((uint32_t)(row["hop"].n ? (1u << 27) : (uint32_t)op));
+  std::vector<std::array<uint32_t, 3>> pts;
+  for (long i = 0; i < n; ++i) pts.push_back({(uint32_t)(37 * i + 5) % 1000, (uint32_t)(911 * i + 3) % 1000, (uint32_t)(i * i * 17 + 1) % 1000});
+  const size_t at = b.size();
+  switch (std::min<long>(level, 6)) {
+    case 0: kd_payload<0>(pts, &b); break; case 1: kd_payload<1>(pts, &b); break; case 2: kd_payload<2>(pts, &b); break; case 3: kd_payload<3>(pts, &b); break;
+    case 4: kd_payload<4>(pts, &b); break; case 5: kd_payload<5>(pts, &b); break; default: kd_payload<6>(pts, &b); break;
+  }
+  std::vector<char> out_bytes(b.data(), b.data() + b.size());
+  const uint32_t inner = row["hip"].n ? (1u << 27) : (uint32_t)ip;      // the payload's own count sits behind its 4-byte bit length
+  if (out_bytes.size() >= at + 8) memcpy(&out_bytes[at + 4], &inner, 4);
+  return out_bytes;
+}
+
 static std::vector<char> assemble_eb(const vrt::J &row, int natt = 1) {
   if (row["mode"].s == "seq") return assemble_seq(row, natt);
+  if (row["mode"].s == "lkd") return assemble_lkd(row);
   EncoderBuffer b;
   b.Encode("DRACO", 5);
   b.Encode((uint8_t)2); b.Encode((uint8_t)2); b.Encode((uint8_t)1); b.Encode((uint8_t)1); b.Encode((uint16_t)0);
@@ -402,6 +440,7 @@ static void probe_eb(const vrt::J &row, long index, EbStats *st) {
   // every row twice: with the position attribute (natt = 1) and without any attribute decoder (natt = 0); the header-only rows and the valence
   // rows that the oracle skipped are probed once
   for (int natt = 1; natt >= 0; --natt) {
+    if (natt == 0 && row["mode"].s == "lkd") continue;  // the legacy kd-tree rows have one form only
     if (natt == 1 && row["npd"].n > 1000) continue;     // index-width rows: the declared point count is the subject, not 25 MB of attribute storage
     const std::vector<char> bytes = assemble_eb(row, natt);
     std::vector<char> buf(bytes);
